@@ -143,6 +143,20 @@ CHECKS["C15"] = dict(
          "display width of wide/combining characters.",
     ref="DESIGN.md 4 (C15)")
 
+CHECKS["C16"] = dict(
+    text="The real Display for Term (fmt, group, the free-variable test choosing the dependent or the plain arrow) is executed on a symbolic parser-shaped term "
+         "-- constructors, implicit flags, De Bruijn indices and literals are solver variables, the printer forks where its output depends on them. On each "
+         "path the written pieces are assembled into text (an occurrence prints the name of the binder its index selects), the compiled tokenizer produces "
+         "the tokens, the real parser (executed by the interpreter, same symbolic payloads) reads them back and z3 decides that the result equals the original "
+         "for all remaining values: formers, implicitness, indices, literals, holes; names ignored. Families: every term of <= 4 (quick) / 5 (thorough) nodes; "
+         "every former in operand position 0-2 / 0-4 of every former. One defect repaired (fix: 4bf820b, a definition group as parameter type was printed "
+         "bare); one recorded as known finding (`{a : int} -> int` prints as `{int} -> int`; an existing test asserts that output). Counterexamples are "
+         "replayed with the compiled printer, tokenizer and parser and classified by their minimal failing subterm.",
+    note="Trusted: executor + models (Display validated against the compiled printer on random programs), z3, the compiled tokenizer (C09's subject). A hole "
+         "reads back as a hole; its shift is not compared. Input terms are assumed to satisfy the parser-output invariants including the real "
+         "check_definitions.",
+    ref="DESIGN.md 4 (C16)")
+
 CHECKS["C09"] = dict(
     text="Bounded symbolic verification of the tokenizer: tokenizer::tokenize (both passes) is executed by path forking on every text of up to 3 (quick) / 4 "
          "(thorough) characters whose code points are symbolic over all of ASCII plus 12 non-ASCII representatives (2/3/4-byte letters, a non-ASCII digit, "
@@ -162,7 +176,6 @@ CHECKS["C10"] = dict(
     ref="DESIGN.md 4 (C10)")
 
 NOT_APPLICABLE = {
-    "C16": "printer round trip needs the packrat parser on 10-25 tokens; symbolic execution of the parser does not reach that (DESIGN.md section 6)",
     "C17": "asymptotic running time over n in the thousands is not observable by bounded symbolic execution (DESIGN.md section 6)",
 }
 
